@@ -66,8 +66,9 @@ def gen_cases(rng, tier):
                 k = rng.randint(1, nd - 1)
                 dice = [h] * k + [h2] * (nd - k)
                 shape = "big-groups"
-            sel = rng.choice(["low", "high", "mid", "one"])
-            k = rng.randint(1, 3)
+            # keep the number of distinct selected tuples moderate: the model enumerates them in Coq
+            sel = rng.choice(["low", "high", "one"] + (["mid"] if nd <= 9 and faces <= 10 else []))
+            k = rng.randint(1, 3) if faces <= 12 else rng.randint(1, 2)
             which = {"low": [{"s": [None, k, None]}], "high": [{"s": [-k, None, None]}],
                      "mid": [{"i": nd // 2}], "one": [{"i": rng.choice([0, -1, 1])}]}[sel]
             if shape == "big-groups" and sel == "mid":
